@@ -800,6 +800,9 @@ def main(tier, seed, log=print):
     outdir = _scratch_dir("c07")
     known = core.load_known_findings(PROP)
     new_violations, known_hits = [], []
+    import glob
+    for old_replay in glob.glob(os.path.join(core.REPLAY_DIR, PROP + "-*.json")):
+        os.remove(old_replay)
     ev = {"layers": {}}
     all_hashes = set()
     total_runs = 0
